@@ -130,7 +130,7 @@ pub fn make_cause(uid: Uid) {
             let kind = w(|w| w.srcs[uid].spec.kind.clone());
             match kind {
                 Kind::Chan { .. } => send(uid),
-                Kind::Gen { .. } | Kind::Comp { .. } => write_fd(uid, 0, Ctx::Outside),
+                Kind::Gen { .. } | Kind::Comp { .. } | Kind::Raw => write_fd(uid, 0, Ctx::Outside),
                 Kind::Stream => stream_push(uid),
                 _ => {}
             }
@@ -197,13 +197,24 @@ fn write_fd(uid: Uid, child: u8, ctx: Ctx) {
         let d = w.dispatch_no;
         let in_dispatch = w.in_dispatch;
         let s = &mut w.srcs[uid];
-        if s.src_drops > 0 || s.fds.is_empty() {
+        if s.fds.is_empty() {
             return;
         }
+        let dropped = s.src_drops > 0;
         let n = s.fds.len();
         let c = &mut s.fds[child as usize % n];
         if c.child == ChildSt::Gone {
             // the sub-source was dropped and its fd closed: the number may belong to somebody else by now
+            return;
+        }
+        if dropped {
+            // only the harness' own dup of an eventfd is still safe to use; the source's fd number is not
+            if c.kind == FdKind::Eventfd {
+                if let Some(p) = c.peer.as_ref() {
+                    use std::os::fd::AsRawFd;
+                    sysx::eventfd_add(p.as_raw_fd(), 1);
+                }
+            }
             return;
         }
         let Some(peer) = c.peer.as_ref() else { return };
@@ -584,7 +595,7 @@ pub fn exec_op(op: &Op, ctx: Ctx) {
             });
         }
         Op::WriteFd(sel, c) => {
-            if let Some(uid) = w(|w| resolve(w, *sel, ctx, &|s| !s.fds.is_empty())) {
+            if let Some(uid) = w(|w| resolve_any(w, *sel, ctx, &|s| !s.fds.is_empty())) {
                 write_fd(uid, *c, ctx);
             }
         }
